@@ -352,6 +352,18 @@ fn f16_explains(pre: &Client, post: &Client, batch: &[Op], d: usize, published: 
         w.extend(c.file_words[d].iter().cloned());
         wordsets.push(w);
     }
+    // intermediate dictionary states: the pre-batch words plus any subset of the words the batch adds
+    let added: Vec<String> = batch.iter().filter_map(|o| match o { Op::AddUser(_, w) => Some(w.to_string()), Op::AddFile(x, w) if *x == d => Some(w.to_string()), _ => None }).collect();
+    let base = wordsets[1].clone();
+    for mask in 0..(1u32 << added.len().min(4)) {
+        let mut w = base.clone();
+        for (i, a) in added.iter().enumerate().take(4) {
+            if mask & (1 << i) != 0 {
+                w.insert(a.clone());
+            }
+        }
+        wordsets.push(w);
+    }
     for t in &texts {
         for w in &wordsets {
             for cfg in [pre.config, post.config] {
@@ -423,21 +435,30 @@ pub fn run(tier: Tier) -> i32 {
     );
     let bsize = 2usize;
     let bound = tier.pick(1usize, 2usize);
-    let mut jobs: Vec<(Vec<Op>, Vec<Op>)> = vec![];
+    let mut jobs: Vec<(Vec<Op>, Vec<Op>, usize)> = vec![];
     for p in &prefixes {
         for a in &all {
             for b in &all {
-                jobs.push((p.clone(), vec![a.clone(), b.clone()]));
+                jobs.push((p.clone(), vec![a.clone(), b.clone()], bound));
             }
         }
     }
+    // the pairs that touch one document twice get one more deviation
+    let hot = [Op::Change(0, 1), Op::Change(0, 2), Op::AddUser(0, "tset"), Op::AddFile(0, "tset"), Op::Config(1), Op::Close(0), Op::Save(0)];
+    for a in &hot {
+        for b in &hot {
+            jobs.push((vec![Op::Open(0, 0)], vec![a.clone(), b.clone()], bound + 1));
+        }
+    }
+    jobs.push((vec![], vec![Op::Open(0, 0), Op::Change(0, 1)], bound + 1));
+    jobs.push((vec![], vec![Op::Open(0, 0), Op::Close(0)], bound + 1));
     if tier == Tier::Thorough {
         // triples on the open document
         let core = [Op::Change(0, 1), Op::Change(0, 2), Op::AddUser(0, "tset"), Op::Config(1), Op::Close(0), Op::Save(0)];
         for a in &core {
             for b in &core {
                 for c in &core {
-                    jobs.push((vec![Op::Open(0, 0)], vec![a.clone(), b.clone(), c.clone()]));
+                    jobs.push((vec![Op::Open(0, 0)], vec![a.clone(), b.clone(), c.clone()], 1));
                 }
             }
         }
@@ -454,8 +475,10 @@ pub fn run(tier: Tier) -> i32 {
         let mut errs: Vec<String> = vec![];
         let mut divergences = 0u64;
         let mut f16 = 0u64;
+        let mut unconfirmed = 0u64;
         for j in s..e {
-            let (prefix, batch) = &jobs[j as usize];
+            let (prefix, batch, bound) = &jobs[j as usize];
+            let bound = *bound;
             // stack of choice prefixes to explore (deviation-bounded DFS, re-execution from scratch)
             let mut stack: Vec<Vec<usize>> = vec![vec![]];
             let mut first = true;
@@ -519,7 +542,21 @@ pub fn run(tier: Tier) -> i32 {
                     }
                     let sig = if deviations == 0 { "batch-fifo:stale-or-wrong" } else { "batch-deviating:unexplained-final-state" };
                     if viols.iter().filter(|v| v.sig == sig).count() < 4 {
-                        viols.push(Violation { sig: sig.into(), case: describe(prefix, batch, &choices, &trace), detail });
+                        // replay the recorded schedule: it must give the same events and the same verdict
+                        let mut confirmed = false;
+                        for _ in 0..3 {
+                            if let Ok(Ok((s2, _, t2, true))) = catch(|| execute(prefix, batch, &choices)) {
+                                if t2 == trace && s2.check_spec().iter().any(|(d2, _)| *d2 == d) {
+                                    confirmed = true;
+                                    break;
+                                }
+                            }
+                        }
+                        if confirmed {
+                            viols.push(Violation { sig: sig.into(), case: describe(prefix, batch, &choices, &trace), detail });
+                        } else {
+                            unconfirmed += 1;
+                        }
                     }
                 }
                 // children: deviate at every later choice point while under the bound
@@ -535,14 +572,16 @@ pub fn run(tier: Tier) -> i32 {
                 }
             }
         }
-        (execs, steps, batches, overlapped, outcomes, viols, errs, divergences, f16)
+        (execs, steps, batches, overlapped, outcomes, viols, errs, divergences, f16, unconfirmed)
     });
     let mut execs = 0;
     let mut batches = 0;
     let mut overlapped = 0;
     let mut divergences = 0;
     let mut f16 = 0;
-    for (x, st, b, o, oc, vs, errs, dv, f) in res {
+    let mut unconfirmed = 0;
+    for (x, st, b, o, oc, vs, errs, dv, f, uc) in res {
+        unconfirmed += uc;
         execs += x;
         transitions += st;
         batches += b;
@@ -562,6 +601,7 @@ pub fn run(tier: Tier) -> i32 {
     report.set("schedules_with_overlapping_handlers", overlapped);
     report.set("deviation_bound", bound as u64);
     report.set("replay_divergences", divergences);
+    report.set("failures_not_reproduced_on_replay(not reported)", unconfirmed);
     report.set("executions_explained_only_by_F16", f16);
     report.set("states", seq_ran + execs);
     report.set("transitions", transitions);
